@@ -254,7 +254,8 @@ impl<'a, V: Default + Copy + Clone + Hash + PartialEq + Pod + Zeroable> HashSetM
             // it again
             if &node.value == value {
                 if previous == SENTINEL {
-                    bucket_node!(self.nodes, index).set_register(Register::Bucket, SENTINEL);
+                    bucket_node!(self.nodes, index)
+                        .set_register(Register::Bucket, node.get_register(Register::Next));
                 } else {
                     node!(self.nodes, previous)
                         .set_register(Register::Next, node.get_register(Register::Next));
